@@ -52,6 +52,19 @@ use world::Event;
 
 pub const DEFAULT_SEED: u64 = 20260929;
 
+/// set once in `main` before any shard starts (plain std atomic: not a scheduling point)
+static C08_MODE: std::sync::atomic::AtomicBool = std::sync::atomic::AtomicBool::new(false);
+fn c08() -> bool {
+    C08_MODE.load(std::sync::atomic::Ordering::Relaxed)
+}
+fn free_pid() -> &'static str {
+    if c08() {
+        "C08"
+    } else {
+        "C09"
+    }
+}
+
 fn verif_seed() -> u64 {
     std::env::var("VERIF_SEED").ok().and_then(|s| s.trim().parse::<u64>().ok()).unwrap_or(DEFAULT_SEED)
 }
@@ -91,13 +104,30 @@ fn chunk_styles<M: Machine>() -> Vec<u8> {
 fn draw_workload<M: Machine>() -> Workload {
     let flt = M::FLT;
     let positive = matches!(M::TRANSFORM, Transform::Ln | Transform::Recip);
-    let family = if flt == Flt::Int { srand(10) as u8 } else { srand(tape::N_FAMILIES as u64) as u8 };
+    let mut family = if flt == Flt::Int { srand(10) as u8 } else { srand(tape::N_FAMILIES as u64) as u8 };
+    if c08() {
+        // the register families of Engine A's C08 configuration: extreme magnitudes, a head with
+        // vanishing increments, alternating signs, integers beyond the mantissa
+        if M::FAMILY == Family::Sum && srand(10) < 3 {
+            family = [tape::FAM_TINY, tape::FAM_HUGE, tape::FAM_VANISHING, tape::FAM_NEAR_UNDERFLOW, tape::FAM_NEAR_UNDERFLOW, tape::FAM_INT_BEYOND_MANTISSA][srand(6) as usize];
+        }
+        if srand(100) < 8 {
+            family = tape::FAM_ALTERNATING;
+        }
+        if M::FAMILY == Family::Mean && srand(100) < 8 {
+            family = tape::FAM_INT_BEYOND_MANTISSA;
+        }
+        if srand(100) < 10 {
+            family = tape::FAM_VANISHING;
+        }
+    }
     let exact_data = family == tape::FAM_EXACT && !positive && flt != Flt::Int;
-    let n_chunks = 1 + srand(8) as usize;
-    let scale_exp = if flt == Flt::Int { 0 } else { srand(41) as i32 - 20 };
+    let n_chunks = 1 + srand(if c08() { [4u64, 12, 40, 96][srand(4) as usize] } else { 8 }) as usize;
+    let scale_exp = if flt == Flt::Int || family == tape::FAM_TINY || family == tape::FAM_HUGE || family == tape::FAM_NEAR_UNDERFLOW { 0 } else { srand(41) as i32 - 20 };
     let styles = chunk_styles::<M>();
     let seed = shuttle::rand::thread_rng().gen::<u64>();
-    let lens: Vec<usize> = (0..n_chunks).map(|_| [0usize, 1, 1, 2, 3, 5, 8, 13][srand(8) as usize]).collect();
+    // C08: rounding errors need terms, so chunks are longer (up to ~2 800 records per execution)
+    let lens: Vec<usize> = (0..n_chunks).map(|_| if c08() { [0usize, 1, 2, 3, 5, 13, 34, 89][srand(8) as usize] } else { [0usize, 1, 1, 2, 3, 5, 8, 13][srand(8) as usize] }).collect();
     let total: usize = lens.iter().sum();
     let t0 = tape::gen_tape(family, seed, total, flt, positive, scale_exp);
     let fam1 = if exact_data { family } else { [0u8, 1, 2, 3, 7][srand(5) as usize] };
@@ -111,7 +141,7 @@ fn draw_workload<M: Machine>() -> Workload {
         chunks.push(Chunk { id: i as u32, recs: [a, b], style: styles[srand(styles.len() as u64) as usize], ctor: srand(M::N_EMPTY as u64) as u8 });
     }
     let n_workers = 2 + srand(3) as usize;
-    Workload { chunks, n_workers, exact_data, knobs: json!({"family": tape::FAMILY_NAMES[family as usize % 14], "chunk_lens": lens, "workers": n_workers}) }
+    Workload { chunks, n_workers, exact_data, knobs: json!({"family": tape::FAMILY_NAMES[family as usize % tape::FAMILY_NAMES.len()], "chunk_lens": lens, "workers": n_workers}) }
 }
 
 /// operators whose first operand is the left one / the right one
@@ -166,7 +196,7 @@ fn bridge<M: Machine>(scenario: &str, w: &Workload, log: &[Log], root: u16) -> (
     }
     events.push(Event::Query { a: root, confs: vec![18, 19, 20] });
     let tr = Trace {
-        property: "C09".into(),
+        property: free_pid().into(),
         config: "free".into(),
         machine: M::name(),
         verif_seed: verif_seed(),
@@ -217,7 +247,7 @@ fn conclude<M: Machine>(scenario: &str, w: &Workload, log: Vec<Log>, root: u16, 
         match probe.last() {
             Some(p) if *p == fp => {}
             other => {
-                violation = Some(Violation::new("C09", "thread-result-differs-from-sequential-replay-of-its-logical-trace", root, format!("threads computed {fp}, sequential replay computed {:?}", other)));
+                violation = Some(Violation::new(free_pid(), "thread-result-differs-from-sequential-replay-of-its-logical-trace", root, format!("threads computed {fp}, sequential replay computed {:?}", other)));
             }
         }
     }
@@ -226,7 +256,7 @@ fn conclude<M: Machine>(scenario: &str, w: &Workload, log: Vec<Log>, root: u16, 
         for (i, o) in observed.iter().enumerate() {
             if probe.get(i) != Some(o) {
                 violation = Some(Violation::new(
-                    "C09",
+                    free_pid(),
                     "monitor-observation-not-linearizable",
                     root,
                     format!("observation {i}: monitor saw {o}, the state after exactly the operations committed before it is {:?}", probe.get(i)),
@@ -858,6 +888,7 @@ fn shard_plan(mode: &str, shard: u64) -> (&'static str, &'static str, bool) {
     match mode {
         "c11" => ("S5", MACHINES[(shard % 12) as usize], (shard / 12) % 2 == 1),
         "c05" => ("S5N", ["Geometric<f32>", "Geometric<f64>", "Harmonic<f32>", "Harmonic<f64>"][(shard % 4) as usize], (shard / 4) % 2 == 1),
+        "c08" => (SCENARIOS[(shard % 4) as usize], ["KahanSum<f32>", "KahanSum<f64>", "Arithmetic<f32>", "Arithmetic<f64>"][((shard / 4) % 4) as usize], (shard / 16) % 2 == 1),
         _ => (SCENARIOS[(shard % 4) as usize], MACHINES[((shard / 4) % 12) as usize], (shard / 48) % 2 == 1),
     }
 }
@@ -865,6 +896,7 @@ fn n_shards(mode: &str) -> u64 {
     match mode {
         "c11" => 24,
         "c05" => 8,
+        "c08" => 32,
         _ => 96,
     }
 }
@@ -902,6 +934,7 @@ fn run_shard(mode: &str, shard: u64, iters: usize, sched_dir: &std::path::Path) 
                 property: match mode {
                     "c11" => "C11",
                     "c05" => "C05",
+                    "c08" => "C08",
                     _ => "C09",
                 }
                 .into(),
@@ -1008,12 +1041,16 @@ fn main() {
     let pid = match mode.as_str() {
         "c11" => "C11",
         "c05" => "C05",
+        "c08" => "C08",
         _ => "C09",
     };
+    C08_MODE.store(mode == "c08", std::sync::atomic::Ordering::Relaxed);
     let t0 = std::time::Instant::now();
     // 96 shards = 4 scenarios x 12 machines x {random, pct}; iterations per shard by tier
     let iters: usize = match (tier.as_str(), mode.as_str()) {
         ("thorough", "free") => 20_000,
+        ("thorough", "c08") => 80_000,
+        (_, "c08") => 6_000,
         ("thorough", _) => 40_000,
         (_, "free") => 1_500,
         _ => 3_000,
@@ -1114,11 +1151,11 @@ fn main() {
     }
     let wall = t0.elapsed().as_secs_f64();
     let j = json!({
-        "property_id": pid, "tier": tier, "seed": verif_seed(), "level": if pid == "C09" { "exploration" } else { "fault_enumeration" },
+        "property_id": pid, "tier": tier, "seed": verif_seed(), "level": if pid == "C09" || pid == "C08" { "exploration" } else { "fault_enumeration" },
         "coverage": {
             "evaluations": total.executions,
             "distinct_nontrivial": total.interleavings.len(),
-            "rule": if mode == "free" { "one evaluation = one shuttle-scheduled execution of a thread scenario (S1 work queue + lock combine, S2 channel fan-in, S3 shared aggregate + monitor with linearizability check, S4 fork-join tree) over real stats-ci states, bridged to a sequential Engine-A replay with the C09 oracle; distinct = distinct logical interleavings (order of chunk-to-partial assignments, merges with orientation, monitor observations; data erased)" } else { "one evaluation = one shuttle-scheduled execution of scenario S5: worker threads feed chunks that may carry a corrupt record or a dropped record into a shared aggregate (directly under the lock, or through a local partial merged under the lock even after a rejected delivery) while a monitor thread clones and queries it; the logical trace is replayed sequentially by the fault-configuration executor (documented outcome of every delivery, post-rejection state, totality of every query, twin refinement) and must reproduce the thread result bit for bit; distinct = distinct logical interleavings" },
+            "rule": if mode == "c08" { "one evaluation = one shuttle-scheduled execution of a thread scenario (S1 work queue + lock combine, S2 channel fan-in, S3 shared aggregate + monitor, S4 fork-join tree) over real KahanSum / Arithmetic registers (chunks up to 233 records, register data families incl. vanishing increments, alternating signs, integers beyond the mantissa); the schedule decides the grouping of chunks and the merge tree; the logical trace is replayed sequentially by Engine A with the C08 oracle (exact sum from the super-accumulator, K = 8) and must reproduce the thread result bit for bit; distinct = distinct logical interleavings" } else if mode == "free" { "one evaluation = one shuttle-scheduled execution of a thread scenario (S1 work queue + lock combine, S2 channel fan-in, S3 shared aggregate + monitor with linearizability check, S4 fork-join tree) over real stats-ci states, bridged to a sequential Engine-A replay with the C09 oracle; distinct = distinct logical interleavings (order of chunk-to-partial assignments, merges with orientation, monitor observations; data erased)" } else { "one evaluation = one shuttle-scheduled execution of scenario S5: worker threads feed chunks that may carry a corrupt record or a dropped record into a shared aggregate (directly under the lock, or through a local partial merged under the lock even after a rejected delivery) while a monitor thread clones and queries it; the logical trace is replayed sequentially by the fault-configuration executor (documented outcome of every delivery, post-rejection state, totality of every query, twin refinement) and must reproduce the thread result bit for bit; distinct = distinct logical interleavings" },
             "samples": total.samples,
             "engine_B": {
                 "schedulers": ["RandomScheduler::new_from_seed", "PctScheduler::new_from_seed(depth 2..3)"],
